@@ -155,14 +155,14 @@ pub fn cosine_distance(a: &[f32], b: &[f32]) -> f64 {
         norm_b_sq += y * y;
     }
 
-    let norm_a = norm_a_sq.sqrt();
-    let norm_b = norm_b_sq.sqrt();
-
-    if norm_a == 0.0 || norm_b == 0.0 {
+    if norm_a_sq == 0.0 || norm_b_sq == 0.0 {
         return 0.0; // Treat zero vectors as identical
     }
 
-    let similarity = dot_product / (norm_a * norm_b);
+    // One square root of the product rather than the product of two square roots:
+    // sqrt(s * s) == s exactly, so identical inputs give similarity 1 and distance 0,
+    // whereas sqrt(s) * sqrt(s) can be off by one ulp.
+    let similarity = dot_product / (norm_a_sq * norm_b_sq).sqrt();
     // Clamp to handle floating point errors
     1.0 - similarity.clamp(-1.0, 1.0)
 }
@@ -327,14 +327,12 @@ pub fn cosine_distance_checked(a: &[f32], b: &[f32]) -> Result<f64, VectorError>
         norm_b_sq += y * y;
     }
 
-    let norm_a = norm_a_sq.sqrt();
-    let norm_b = norm_b_sq.sqrt();
-
-    if norm_a == 0.0 || norm_b == 0.0 {
+    if norm_a_sq == 0.0 || norm_b_sq == 0.0 {
         return Ok(0.0); // Treat zero vectors as identical
     }
 
-    let similarity = dot_product / (norm_a * norm_b);
+    // sqrt(s * s) == s exactly (see cosine_distance)
+    let similarity = dot_product / (norm_a_sq * norm_b_sq).sqrt();
     Ok(1.0 - similarity.clamp(-1.0, 1.0))
 }
 
